@@ -108,10 +108,16 @@ func verifC14Zone() {
 	rcodes := []uint8{0, 2, 3, 5}
 	z := &vZone{}
 	aliasLoop := vBool()
+	served := map[string]net.IP{} // address the zone served for a name
+	aChoice := map[string][2]bool{}
+	refused := map[string]bool{} // an address query for the name was answered with an error rcode
 	z.answer = func(q vQuery) (*dns.Message, error) {
 		m := &dns.Message{QR: 1}
 		if vBool() {
 			m.RCode = rcodes[vInt(1, 3)]
+			if q.typ != 65 {
+				refused[q.name] = true
+			}
 			return m, nil
 		}
 		known := false
@@ -125,7 +131,9 @@ func verifC14Zone() {
 		case 65:
 			switch q.name {
 			case origin:
-				switch vInt(0, 3) {
+				switch vInt(0, 4) {
+				case 4: // service mode with an explicit target that is the queried host itself
+					m.Answer = append(m.Answer, dns.RR{Name: origin, Type: 65, Class: 1, TTL: 60, Data: dns.HTTPS{Priority: 1, Target: origin, ECH: []byte{5}}})
 				case 0: // alias
 					m.Answer = append(m.Answer, dns.RR{Name: origin, Type: 65, Class: 1, TTL: 60, Data: dns.HTTPS{Priority: 0, Target: "alias1.example"}})
 				case 1: // service mode, two records out of priority order, one with a target
@@ -152,17 +160,24 @@ func verifC14Zone() {
 			}
 		case 1:
 			m.Answer = append(m.Answer, dns.RR{Name: "evil.example", Type: 1, Class: 1, TTL: 60, Data: vMarkerIP})
-			if vBool() {
+			ch, ok := aChoice[q.name] // the zone's data for a name does not change between queries
+			if !ok {
+				ch = [2]bool{vBool(), vBool()}
+				aChoice[q.name] = ch
+			}
+			if ch[0] {
 				// a CNAME that is not owned by the queried name must not redirect the chain
 				m.Answer = append(m.Answer, dns.RR{Name: "evil.example", Type: 5, Class: 1, TTL: 60, Data: "evil2.example"},
 					dns.RR{Name: "evil2.example", Type: 1, Class: 1, TTL: 60, Data: vMarkerIP})
 			}
-			if vBool() {
+			if ch[1] {
 				// through an in-answer CNAME
 				m.Answer = append(m.Answer, dns.RR{Name: q.name, Type: 5, Class: 1, TTL: 60, Data: "c." + q.name},
 					dns.RR{Name: "c." + q.name, Type: 1, Class: 1, TTL: 60, Data: net.IP{10, 0, 0, 1}})
+				served[q.name] = net.IP{10, 0, 0, 1}
 			} else {
 				m.Answer = append(m.Answer, dns.RR{Name: q.name, Type: 1, Class: 1, TTL: 60, Data: net.IP{10, 0, 0, 2}})
+				served[q.name] = net.IP{10, 0, 0, 2}
 			}
 		}
 		return m, nil
@@ -197,6 +212,20 @@ func verifC14Zone() {
 		vAssert(len(h.ECH) != 1 || h.ECH[0] != 0xEE, "HTTPS records of unrelated owner names are never used")
 		vAssert(h.Priority >= prev, "service-mode records ordered by priority")
 		prev = h.Priority
+		if ip, ok := served[h.Target]; ok && h.Target != "" && !refused[h.Target] {
+			found := false
+			for _, a := range res.Additional[h.Target] {
+				found = found || vBytesEq(a.To4(), ip)
+			}
+			vAssert(found, "a service-mode record comes with the addresses the zone serves for its target")
+		}
+	}
+	if ip, ok := served[origin]; ok && !refused[origin] {
+		found := false
+		for _, a := range res.Address {
+			found = found || vBytesEq(a.To4(), ip)
+		}
+		vAssert(found, "the origin's own addresses are returned")
 	}
 	vReach("resolved")
 }
